@@ -107,6 +107,13 @@ func (p *RunnableProcessor) Process(ctx context.Context, records []opencdc.Recor
 					sdk.ErrorRecord{Error: cerrors.New("processor returned more records than input")},
 				}
 			}
+			if len(outRecs) < len(keptRecords) {
+				// Fewer results than inputs: the missing ones were not
+				// processed (a nil result is retried by the engine). Pad so the
+				// merge below keeps every result aligned with its record
+				// instead of indexing past the merged slice.
+				outRecs = append(outRecs, make([]sdk.ProcessedRecord, len(keptRecords)-len(outRecs))...)
+			}
 		}
 		if err != nil {
 			outRecs = append(outRecs, sdk.ErrorRecord{Error: err})
